@@ -30,6 +30,9 @@ type iterCase struct {
 	// EngineDefault > 0 (engine path only): the engine's default depth option is this value while
 	// the analysis itself asks for Depth (0 = explicitly no limit): the per-search option wins.
 	EngineDefault int `json:"engine_default_depth,omitempty"`
+	// ClockMS > 0: the analysis runs under a time control with that much time for both sides
+	// (generous: hours; it never expires within a case, but the option is set).
+	ClockMS int64 `json:"clock_ms,omitempty"`
 }
 
 type directResult struct {
@@ -97,6 +100,9 @@ var checkC15 = def("C15/iterative", func(c iterCase) error {
 	if limit > 0 {
 		opt.DepthLimit = lang.Some(uint(limit))
 	}
+	if c.ClockMS > 0 {
+		opt.TimeControl = lang.Some(searchctl.TimeControl{White: time.Duration(c.ClockMS) * time.Millisecond, Black: time.Duration(c.ClockMS) * time.Millisecond})
+	}
 	if c.ViaEngine {
 		eopts := engine.Options{}
 		if c.EngineDefault > 0 {
@@ -104,7 +110,7 @@ var checkC15 = def("C15/iterative", func(c iterCase) error {
 			opt.DepthLimit = lang.Some(uint(limit)) // Some(0) = explicitly unlimited
 		} else if limit > 0 && c.Param%2 == 0 {
 			// default depth option of the engine instead of a per-search limit
-			eopts.Depth, opt = uint(limit), searchctl.Options{}
+			eopts.Depth, opt = uint(limit), searchctl.Options{TimeControl: opt.TimeControl}
 		}
 		e := engine.New(ctx, "verif", "verif", gs, engine.WithOptions(eopts))
 		if err := e.Reset(ctx, c.FEN); err != nil {
@@ -277,6 +283,13 @@ var checkC15 = def("C15/iterative", func(c iterCase) error {
 					return err
 				}
 				endedBy = "halt"
+				// halting means the pending iteration is told to stop: its context is cancelled
+				select {
+				case <-ev.ctx.Done():
+				case <-time.After(5 * time.Second):
+					close(ev.release)
+					return fmt.Errorf("%s: Halt() has returned, but the context of the pending iteration %d is still not cancelled 5 s later (the search would run on)", where, ev.depth)
+				}
 			}
 			close(ev.release)
 		case pv, ok := <-out:
@@ -322,10 +335,13 @@ var checkC15 = def("C15/iterative", func(c iterCase) error {
 	if c.EngineDefault > 0 {
 		labels = append(labels, "per-search-limit-overrides-engine-default")
 	}
+	if c.ClockMS > 0 {
+		labels = append(labels, "time-control-option-set")
+	}
 	if !g.Cur().Pos.HasLegal() {
 		labels = append(labels, "root-without-moves")
 	}
-	stats.Case("C15/iterative", stats.FP(c.FEN, fmt.Sprint(c.Moves), c.Config, c.Param, c.Depth, c.Cap, c.HaltAt, c.ViaEngine, c.Ungated, c.EngineDefault), true, labels...)
+	stats.Case("C15/iterative", stats.FP(c.FEN, fmt.Sprint(c.Moves), c.Config, c.Param, c.Depth, c.Cap, c.HaltAt, c.ViaEngine, c.Ungated, c.EngineDefault, c.ClockMS), true, labels...)
 	stats.Note("C15/iterative", "iterations_compared", int64(len(got)))
 	return nil
 })
@@ -351,6 +367,9 @@ func genIterCase(t *rapid.T) iterCase {
 	c.ViaEngine = rapid.Bool().Draw(t, "viaengine")
 	if c.ViaEngine && rapid.IntRange(0, 3).Draw(t, "enginedefault") == 0 {
 		c.EngineDefault = rapid.IntRange(1, max(1, cap)).Draw(t, "defaultdepth")
+	}
+	if rapid.IntRange(0, 3).Draw(t, "clock") == 0 {
+		c.ClockMS = int64(rapid.SampledFrom([]int{3_600_000, 36_000_000}).Draw(t, "clockms"))
 	}
 	if rapid.IntRange(0, 5).Draw(t, "ungated") == 0 {
 		c.Ungated = true
